@@ -143,7 +143,11 @@ class SimCommunicator(kiwipy.CommunicatorHelper):
         options = self._next_options(opts)
 
         def deliver():
-            subscriber = self._rpc_subscribers.get(recipient_id) if not self.is_closed() else None
+            # (a broker routes by the textual form of the recipient: an integer or UUID pid finds the subscriber that was
+            # registered under str(pid))
+            subscriber = None
+            if not self.is_closed():
+                subscriber = self._rpc_subscribers.get(recipient_id) or self._rpc_subscribers.get(str(recipient_id))
             self.rpc_deliveries.append((recipient_id, msg, subscriber is not None))
             if subscriber is None:
                 if not reply.done():
